@@ -93,6 +93,7 @@ pub fn run_input2(ch: &mut Chunker, k: &str, v: &Value) {
             rec_dwrel(ch, v["kind"] == "concat", &a, &b, pos);
         }
         "std" => rec_std(ch, v["op"].as_str().unwrap_or(""), &s_of(&v["s"])),
+        "optseq" => rec_optseq(ch, crate::rec::alpha_inv(v["w0"].as_i64().unwrap_or(0)), v["ops"].as_array().map(|a| a.as_slice()).unwrap_or(&[])),
         _ => eprintln!("twh: unknown input kind {:?}", k),
     }
 }
@@ -542,6 +543,30 @@ pub fn rec_c08(ch: &mut Chunker, text: &str, o1: &Opts, o2: &Opts) {
     };
     let ev = json!({"ev": "c08", "text": ch.cps(text), "o1": j1, "o2": j2, "l1": strs(ch, &l1), "l2": strs(ch, &l2), "status": status});
     ch.push(ev);
+}
+
+pub fn gen_optseqs(ch: &mut Chunker, r: &mut Rng, scale: usize) {
+    let names = ["width", "ii", "si", "bw", "crlf", "sep", "splitter", "alg"];
+    for _ in 0..300 * scale {
+        let n = r.below(7);
+        let mut ops = Vec::new();
+        for _ in 0..n {
+            let k = *r.pick(&names);
+            let v = match k {
+                "width" => json!(*r.pick(&[0usize, 1, 7, 80, 99_999_999])),
+                "ii" | "si" => {
+                    let s = r.pick(INDENTS).to_string();
+                    ch.cps(&s)
+                }
+                "bw" | "crlf" => json!(r.chance(1, 2)),
+                "sep" => json!(*r.pick(&["ascii", "uax"])),
+                "splitter" => json!(*r.pick(&["none", "hyphen"])),
+                _ => json!(*r.pick(&["ff", "opt"])),
+            };
+            ops.push(json!([k, v]));
+        }
+        rec_optseq(ch, *r.pick(&[0usize, 3, 80, usize::MAX]), &ops);
+    }
 }
 
 pub fn gen_c08_pairs(ch: &mut Chunker, r: &mut Rng, scale: usize) {
